@@ -19,6 +19,44 @@ import signal
 import sys
 import types
 
+# ---- list-then-read loops: (platform, method) -> per-item access point.  The fault plan {site: [(1, err or None), ...]}
+# addresses the ordinal of the call AT that access point (item j fails after the items before it were read), and
+# combines with a fault at another access point (the trailing liveness probe os.stat).
+LOOPS = {("sunos", "threads"): "query_process_thread", ("sunos", "open_files"): "os.readlink",
+         ("sunos", "memory_maps"): "os.readlink"}
+
+
+def loop_faults(plat, meth, outs, stat):
+    f = {LOOPS[(plat, meth)]: [(1, o) for o in outs]}
+    if stat is not None:
+        f["os.stat"] = [(None, stat)]
+    return f
+
+
+def loop_answer(layer, meth, val):
+    """Canonical answer of a loop method: which items of the listing it holds, in order."""
+    from pv.canon import T
+    out = []
+    for x in val:
+        try:
+            if meth == "threads":
+                i, ok = x.id - BASE["os.listdir"], (x.user_time, x.system_time) == (BASE["query_process_thread"], BASE["query_process_thread"] + 1)
+                out.append(T("Read", i) if ok else T("Bad", i))
+            elif meth == "open_files":
+                out.append(T("Read", x.fd - BASE["os.listdir"]) if x.path == "/f%d" % BASE["os.readlink"] else T("Bad", x.fd))
+            else:
+                i = x[3] - 5000
+                if x[2] == "/f%d" % BASE["os.readlink"]:
+                    out.append(T("Read", i))
+                elif x[2].endswith("/%d/path/n%d" % (layer.world.pid, i)):
+                    out.append(T("Unres", i))
+                else:
+                    out.append(T("Bad", i))
+        except Exception:  # noqa
+            out.append(T("Bad", -1))
+    return T("List", out)
+
+
 PLATS = ["freebsd", "openbsd", "netbsd", "macos", "sunos", "aix", "windows"]
 FILES = dict(freebsd="_psbsd.py", openbsd="_psbsd.py", netbsd="_psbsd.py", macos="_psosx.py",
              sunos="_pssunos.py", aix="_psaix.py", windows="_pswindows.py")
@@ -121,8 +159,10 @@ class World:
         self.reset()
 
     def reset(self, pid=7, state="alive", site=None, err=None, records=None, notty=False, faults=None, rowalt=None,
-              rowset=None, probe_err=None):
-        """faults: {site: [(count or None, err or None), ...]} -- the first `count` invocations of that native call
+              rowset=None, probe_err=None, nitems=None):
+        """nitems: length of the listings handed out to the list-then-read loops (os.listdir of <procfs>/<pid>/lwp, /fd;
+        rows of the Solaris proc_memory_maps); None = the single sentinel item.  Item i of a listing is BASE + i.
+        faults: {site: [(count or None, err or None), ...]} -- the first `count` invocations of that native call
         end with err (None = succeed), then the next segment applies; count None = all remaining invocations.
         site/err = the single-fault shorthand {site: [(None, err)]}."""
         self.pid, self.state, self.site, self.err = pid, state, site, err
@@ -130,6 +170,7 @@ class World:
         if site is not None and err is not None:
             self.faults[site] = [(None, err)]
         self.ncalls = {}
+        self.nitems = nitems
         self.probe_err = probe_err            # every follow-up probe of the error path (is_zombie / pid_exists / pids) fails with it
         self.probe_raised = []
         self.kname = None                     # kernel process name handed out by the native layer (None: the sentinel)
@@ -319,6 +360,18 @@ class Layer:
             return ["\\Device\\HarddiskVolume1\\f%d" % v[0]]
         return [("/f%d" % v[0], v[1])]
 
+    def _sunos_maps(self):
+        """Rows of the Solaris proc_memory_maps: the sentinel row, or world.nitems rows (row i: name n<i>, rss 5000 + i)."""
+        row = self.row("proc_memory_maps")
+        if self.world.nitems is None:
+            return [tuple(row)]
+        out = []
+        for i in range(self.world.nitems):
+            r = list(row)
+            r[3], r[4] = "n%d" % i, 5000 + i
+            out.append(tuple(r))
+        return out
+
     def _cext_funcs(self):
         p = self.plat
         L = self
@@ -359,7 +412,7 @@ class Layer:
             f["proc_cpu_num"] = lambda *a: L.scal("proc_cpu_num")
             f["query_process_thread"] = lambda pid, tid, path: (BASE["query_process_thread"], BASE["query_process_thread"] + 1)
             f["net_connections"] = lambda *a: [tuple(L.row("net_connections"))]
-            f["proc_memory_maps"] = lambda *a: [tuple(L.row("proc_memory_maps"))]
+            f["proc_memory_maps"] = lambda *a: L._sunos_maps()
         elif p == "aix":
             f["proc_name"] = lambda *a: (L.world.kname if L.world.kname is not None else "nativename") + "\0\0"
             f["proc_args"] = lambda *a: L.row("proc_args")
@@ -430,7 +483,9 @@ class Layer:
                     L.world.probe_fault(L.plat)
                     ls = ["1"] + ([str(L.world.pid)] if L.world.listed() else []) + ["self", "net"]
                     return [x.encode() for x in ls] if isinstance(p, bytes) else ls
-                return L.native("os.listdir", lambda *x: [str(BASE["os.listdir"])], (p,), {})
+                n = L.world.nitems
+                return L.native("os.listdir", lambda *x: [str(BASE["os.listdir"] + i) for i in range(1 if n is None else n)],
+                                (p,), {})
 
             def waitpid(self, pid, flags):               # _psposix.wait_pid (timeout=0 -> WNOHANG)
                 def real(pid, flags):
@@ -561,10 +616,10 @@ class Layer:
                 "ionice_set": (2, 0), "send_signal": (signal.SIGTERM,), "wait": (0,)}.get(meth, ())
 
     def run(self, meth, pid=7, state="alive", site=None, err=None, records=None, notty=False, args=None, faults=None,
-            rowalt=None, rowset=None, probe_err=None):
+            rowalt=None, rowset=None, probe_err=None, nitems=None):
         """Returns (kind, payload): ('val', value) | ('exc', exception object); world holds calls/fired."""
         mod = self.mod
-        self.world.reset(pid, state, site, err, records, notty, faults, rowalt, rowset, probe_err)
+        self.world.reset(pid, state, site, err, records, notty, faults, rowalt, rowset, probe_err, nitems)
         if hasattr(mod, "_pid_0_exists"):
             mod._pid_0_exists.cache_clear()
         if hasattr(mod, "convert_dos_path"):
